@@ -87,6 +87,11 @@ def read_size(s):
     """documented: combinations of K|M|G|T suffixed components, e.g. `1.5M 32K 512` (last may be bare bytes).
     Undocumented but harmless forms (`.5K`, `3.K`, exponent notation, sign, empty) are don't-care as long as
     the value is finite and fits; overflowing / non-finite / malformed text is invalid."""
+    terms = s.split()
+    if len(terms) > 1 and any(x[-1:].lower() not in "kmgt" for x in terms[:-1]):
+        # a bare number in front of further components ("512 32K"): the documentation only shows the bare byte count last
+        # ("4K 2048"); oomd glues it to the next component (51232K). Undocumented either way: not judged.
+        return DONTCARE, None
     t = re.sub(r"\s+", "", s).lower()
     neg = dc = False
     if t.startswith("+"):
